@@ -377,3 +377,79 @@ class FilterThruMean:
         except Exception as e:
             bad = [("no_unexpected_exception", "%s: %s" % (type(e).__name__, e))]
         return (not bad, "case %s: %s" % (last["inp"], bad[:2]))
+
+
+# ---------------------------------------------------------------------------
+# the two public conversions on concrete inputs of every admissible form (bounded stand-in): gives replayable inputs and covers integer and
+# float32 arrays, Quantities and repeated calls, which the symbolic jobs reach only through the float-array path
+# ---------------------------------------------------------------------------
+from pyvc.numeric import NumericJob as _NumericJob
+
+
+@register("C19")
+class AirVacNative(_NumericJob):
+    name = "airvac_input_forms"
+    target = "pydl.goddard.astro:airtovac, vactoair"
+    bound = ("arrays of 1..12 wavelengths 100 A .. 30 um (mixed below / at / above 2000 A) as float64, float32, int64, int32 arrays, Python floats, and "
+             "Quantities in Angstrom / nm / um; every call repeated on the same array")
+    KINDS = ("every_input_form_gives_the_float_scalar_result", "below_2000_unchanged_and_vacuum_greater_than_air_above", "round_trips_within_1e-6_A",
+             "input_not_modified_and_answer_in_the_callers_unit")
+    NQ, NT = 150, 1500
+
+    def _cases(self, rng, n):
+        for rep in range(n):
+            m = rng.randint(1, 12)
+            w = [rng.choice([100.0, 1999.0, 2000.0, 2001.0, 5000.0, 12345.0, 299999.0, float(rng.randint(101, 299998)), rng.uniform(100, 3e5)]) for _ in range(m)]
+            yield dict(w=w, form=rng.choice(["f8", "f4", "i8", "i4", "A", "nm", "um"]), inp=dict(rep=rep, n=m))
+
+    def _check(self, c):
+        import astropy.units as u
+        from pydl.goddard.astro import airtovac, vactoair
+        bad = []
+        form = c["form"]
+        w = np.array(c["w"], dtype=float)
+        if form in ("i8", "i4"):
+            w = np.floor(w)
+        if form == "f4":
+            w = w.astype("f4").astype(float)
+        if form in ("nm", "um"):
+            # the conversion jumps by 0.65 A at exactly 2000 A; 200 nm -> 1999.9999999999998 A in floating point lands on the other side of the jump:
+            # a rounding effect of the unit conversion, not of the routine -- keep Quantity inputs in other units off the exact threshold
+            w = np.where(np.abs(w - 2000.0) < 1e-6, 2000.5, w)
+        ref_vac = np.array([float(airtovac(float(x))) for x in w])
+        ref_air = np.array([float(vactoair(float(x))) for x in w])
+        unit = {"A": u.Angstrom, "nm": u.nm, "um": u.um}.get(form)
+        if unit is None:
+            arr = w.astype(form)
+        else:
+            arr = (w * u.Angstrom).to(unit)
+        keep = arr.copy()
+        for name, fn, ref in (("airtovac", airtovac, ref_vac), ("vactoair", vactoair, ref_air)):
+            out1 = fn(arr)
+            out2 = fn(arr)          # the same array again
+            same_in = np.array_equal(np.asarray(arr.value if unit is not None else arr), np.asarray(keep.value if unit is not None else keep))
+            if not same_in:
+                bad.append(("input_not_modified_and_answer_in_the_callers_unit", "%s modified its %s input" % (name, form)))
+            if unit is not None:
+                if not (hasattr(out1, "unit") and out1.unit == unit):
+                    bad.append(("input_not_modified_and_answer_in_the_callers_unit", "%s answered in %s for input in %s" % (name, getattr(out1, "unit", None), unit)))
+                    continue
+                v1, v2 = out1.to(u.Angstrom).value, out2.to(u.Angstrom).value
+            else:
+                v1, v2 = np.asarray(out1, dtype=float), np.asarray(out2, dtype=float)
+            tol = 1e-9 * np.maximum(ref, 1.0) if form != "f4" else 2e-7 * np.maximum(ref, 1.0)      # float32 results carry float32 rounding
+            if v1.shape != ref.shape or (np.abs(v1 - ref) > tol).any() or not np.array_equal(v1, v2):
+                k = int(np.argmax(np.abs(v1 - ref))) if v1.shape == ref.shape else 0
+                bad.append(("every_input_form_gives_the_float_scalar_result", "%s(%s array): element %d (%.4f A) -> %r, scalar call %r; repeated call equal: %s" %
+                            (name, form, k, w[k], float(v1[k]) if v1.shape == ref.shape else None, float(ref[k]), bool(np.array_equal(v1, v2)))))
+        lo = w < 2000.0
+        if not (np.array_equal(ref_vac[lo], w[lo]) and np.array_equal(ref_air[lo], w[lo]) and (ref_vac[~lo] > w[~lo]).all() and (ref_air[w > 2001.0] < w[w > 2001.0]).all()):
+            bad.append(("below_2000_unchanged_and_vacuum_greater_than_air_above", "wavelengths %s" % w.tolist()))
+        hi = w >= 2000.0
+        rt1 = np.array([float(vactoair(airtovac(float(x)))) for x in w[hi]])
+        airs = np.array([float(vactoair(float(x))) for x in w[hi]])
+        rt2 = np.array([float(airtovac(float(a))) for a in airs])
+        ok2 = np.abs(rt2 - w[hi])[airs >= 2000.0] <= 1e-6
+        if (np.abs(rt1 - w[hi]) > 1e-6).any() or not ok2.all():
+            bad.append(("round_trips_within_1e-6_A", "wavelengths %s" % w[hi].tolist()))
+        return bad
